@@ -3,12 +3,16 @@ package checks
 import (
 	"encoding/json"
 	"fmt"
+	"math/big"
 	"math/rand"
 	"os"
 
 	"verif/harness/graph"
 
+	"verif/harness/origin"
+	"verif/harness/pki"
 	"verif/harness/vk"
+	"verif/harness/world"
 )
 
 func realDecided(v string) bool { return v == "accept" || v == "revoked" || v == "error" }
@@ -232,6 +236,15 @@ func C03(c *vk.Ctx) {
 			}
 		}
 	}
+	// the same cells with the first CDP fetch left to the background (the entry exists, its list is not in force yet when the
+	// handshake is judged): the strict gate is part of what the CRL mechanism reports
+	for _, mode := range []string{"unset", "prefer_ocsp", "prefer_crl", "crl_only"} {
+		for _, oc := range []string{"noaia", "good"} {
+			for _, strict := range []bool{false, true} {
+				cfgs = append(cfgs, HubCfg{Mode: mode, Sig: "verify", Strict: strict, Fetch: "background", Disk: false, Conf: "none", Ocsp: oc, Aia: strict})
+			}
+		}
+	}
 	gs, res := exportHubGraphs(c, cfgs, nil, 2)
 	c.Set("states", res.Distinct)
 	rng := rand.New(rand.NewSource(c.Seed))
@@ -366,6 +379,7 @@ func C10(c *vk.Ctx) {
 		{Mode: "crl_only", Sig: "verify", Strict: true, Fetch: "actively", Disk: false, TrustA: true, Conf: "url", Ocsp: "noaia"},
 		{Mode: "crl_only", Sig: "none", Strict: true, Fetch: "background", Disk: true, TrustA: false, Conf: "url", Ocsp: "noaia"},
 	}, c.Pick(300, 4000), func(d hubDoc) bool { return d.Signer == "A" || d.Q == "down" || d.Q == "garbage" }, RandomShape, predC10)
+	c.Add("traces_validated_against_impl", int64(c10Overlap(c)))
 	c.Set("spec", "Revocation.tla: StrictGate, LenientNeverDenies (action properties)")
 	c.Set("rule", "as C01; predicates: strict AND certificate names distribution points AND accepted AND ghost says that CRL is not in force => violation; lenient AND denied AND not listed AND OCSP accepted => violation; CDP sets: http (c1), ldap-only (c3), none (c2)")
 }
@@ -557,4 +571,67 @@ func predC15hub(c *vk.Ctx, o *hubObs) {
 	}
 	c.Violation(fmt.Sprintf("pass-took-list-in-but-not-in-force:by=%s:after-failed-attempt=%v:fetch=%s:sig=%s", by, failedBefore, o.Cfg.Fetch, o.Cfg.Sig),
 		fmt.Sprintf("a %s pass fetched an acceptable CRL that lists %s (earlier failed attempt at the location: %v), yet the certificate is accepted afterwards; cfg=%s", by, cert, failedBefore, o.Cfg), hubReplay(o))
+}
+
+// c10Overlap: StrictGate and LenientNeverDenies are properties of an INSTANCE and its own configuration. Caddy provisions the
+// modules of a new configuration before it cleans up the old ones, so two instances on one work_dir overlap for a moment (the
+// current code refuses the second Provision unless the directory is spelt differently; an implementation that admits it must keep
+// the instances' options apart). Instance A (lenient or strict) is up; instance B with the opposite crl_cdp_strict is provisioned
+// on the same directory; if that succeeds, B is judged by B's option while A is still up and after A was cleaned up.
+func c10Overlap(c *vk.Ctx) int {
+	n := 0
+	for _, disk := range []bool{false, true} {
+		for _, firstStrict := range []bool{false, true} {
+			for _, spelling := range []string{"same", "trailing-slash"} {
+				org := origin.New()
+				ca := pki.NewCA(pki.CAOpts{Name: "Overlap CA", Serial: 640})
+				leaf := ca.Leaf(pki.LeafOpts{CN: "overlap", Serial: big.NewInt(6401), CDP: []string{org.URL + "/overlap.crl"}})
+				chain := pki.Chain(leaf.Cert, ca)
+				org.SetBody("/overlap.crl", []byte("<html>503</html>")) // the distribution point's CRL cannot be obtained
+				mk := func(strict bool) world.Cfg {
+					return world.Cfg{Mode: "crl_only", Storage: backendName(disk), Sig: "verify", Fetch: "fetch_actively", CdpStrict: strict, Interval: "1h"}
+				}
+				a, err := world.New(mk(firstStrict))
+				if err != nil {
+					c.Infra("world: %v", err)
+				}
+				if err := a.Provision(); err != nil {
+					c.Infra("provision: %v", err)
+				}
+				ra := a.Handshake(chain)
+				b := &world.World{Sandbox: a.Sandbox, WorkDir: a.WorkDir, Cfg: mk(!firstStrict)}
+				if spelling == "trailing-slash" {
+					b.WorkDirAs = a.WorkDir + string(os.PathSeparator)
+				}
+				perr := b.Provision()
+				rep := map[string]any{"backend": backendName(disk), "first_instance_strict": firstStrict, "work_dir_spelling": spelling, "second_provision": fmt.Sprint(perr), "first_instance_verdict": ra.Verdict}
+				n++
+				c.Eval(fmt.Sprintf("overlap|%v|%v|%s", disk, firstStrict, spelling))
+				judge := func(when string) {
+					r := b.Handshake(chain)
+					bStrict := !firstStrict
+					if bStrict && r.Verdict == "accept" {
+						c.Violation(fmt.Sprintf("strict:accepted-without-crl-in-force:overlapping-instances:%s", when),
+							fmt.Sprintf("instance B (crl_cdp_strict on) was provisioned on the work_dir of instance A (off) %s: it accepts a certificate whose distribution-point CRL is not in force", when), rep)
+					}
+					if !bStrict && r.Verdict != "accept" {
+						c.Violation(fmt.Sprintf("lenient:denied-by-cdp-trouble:overlapping-instances:%s", when),
+							fmt.Sprintf("instance B (crl_cdp_strict off) was provisioned on the work_dir of instance A (on) %s: it denies a certificate only because its distribution-point CRL cannot be obtained (%s)", when, r.Err), rep)
+					}
+				}
+				if perr == nil {
+					judge("while-A-is-up")
+					a.Cleanup()
+					judge("after-A-was-cleaned-up")
+					b.Cleanup()
+				} else {
+					a.Cleanup()
+				}
+				a.V, b.V = nil, nil
+				os.RemoveAll(a.Sandbox)
+				org.Close()
+			}
+		}
+	}
+	return n
 }
